@@ -40,5 +40,8 @@ let () = run_protocol [
          (match get_mean o s (gm kinv) (gv cond) (norm_bwd o (gn code) (gf lam)) (gf mean) (gb callable) (gb post) with
           | None -> VNone | Some x -> VF x) | _ -> failwith "arity"));
   "poly_drifts", (function [dim; order; m; pos] -> VM (poly_drifts o (gn dim) (gn order) (gn m) (gm pos)) | _ -> failwith "arity");
+  "set_cond_err", (function [exact; n; nug; isnug; scalar; v] ->
+      (match set_cond_err o (gb exact) (gn n) (gf nug) (if gb isnug then None else Some (gb scalar, gv v)) with
+       | None -> VNone | Some e -> VV e) | _ -> failwith "arity");
   "grid", (function axes -> VM (grid (List.map gv axes)));
 ]
